@@ -4,10 +4,11 @@ import math
 import os
 import random
 import core
+import formmodel
 from props.c11 import random_corr
 
 PID = 'C10'
-MODULES = ['FFVerif.Proofs.C10']
+MODULES = ['FFVerif.Proofs.C10', 'FFVerif.Proofs.C10Loop', 'FFVerif.Proofs.C11Chol']
 
 
 def fail(res, clause, case, out, sig=None):
@@ -190,9 +191,16 @@ def run(tier, seed):
     explore(res, random.Random(seed), n)
     recorded_limits(res)
     res.traces = res.evaluations
+    # executable Lean model of the HL-RF loop / mvalFOSM (Model/Form.lean) against the implementation, iterate by iterate
+    formmodel.form_stream(res, random.Random(seed + 7), 40 if tier == 'quick' else 1500)
     res.disagreements_checked = res.evaluations
-    res.trusted += ['theorems are about the exact HL-RF step / linear algebra; convergence of the iteration, SLSQP in coptFORM and the '
-                    'numerical gradient are modelled, not verified; tie by tolerance (1e-5, coptFORM 2e-4)']
+    res.trusted += ['Proofs/C10.lean: theorems about the exact HL-RF step / linear algebra over an abstract inner-product space, tied to the implementation by '
+                    'tolerance checks of their consequences (1e-5, coptFORM 2e-4)',
+                    'Proofs/C10Loop.lean: theorems about the executable model of the hlrfFORM loop and of mvalFOSM (Model/Form.lean, Model/Nataf.lean, '
+                    'Model/Chol.lean); the model is tied to the implementation by running both on the same problems (normal / lognormal marginals, '
+                    'linear and quadratic limit states, random tol / iter) and comparing outcome, number of iterations, every evaluation point of g, '
+                    'beta, uCoord, xCoord at 1e-7 relative',
+                    'convergence of the iteration on nonlinear limit states, SLSQP in coptFORM, the numerical gradient and scipy.stats are modelled, not verified']
     return core.finish(res)
 
 
